@@ -58,7 +58,7 @@ using namespace llbuild;
 #endif
 
 extern "C" const char* __asan_default_options() {
-  return "exitcode=97:detect_leaks=0:allocator_may_return_null=1:hard_rss_limit_mb=6000:abort_on_error=0:handle_abort=0";
+  return "exitcode=97:detect_leaks=0:allocator_may_return_null=1:hard_rss_limit_mb=2500:abort_on_error=0:handle_abort=0";
 }
 extern "C" const char* __ubsan_default_options() { return "exitcode=97:print_stacktrace=1:halt_on_error=1"; }
 
@@ -370,7 +370,7 @@ int main(int argc, char** argv) {
     if (pid == 0) {
       dup2(fileno(errf), 2);
 #ifndef PD_ASAN
-      struct rlimit rl; rl.rlim_cur = rl.rlim_max = 6UL << 30; setrlimit(RLIMIT_AS, &rl);
+      struct rlimit rl; rl.rlim_cur = rl.rlim_max = 2UL << 30; setrlimit(RLIMIT_AS, &rl);
 #endif
       struct rlimit core; core.rlim_cur = core.rlim_max = 0; setrlimit(RLIMIT_CORE, &core);
       signal(SIGPROF, onTimer); signal(SIGALRM, onTimer);
